@@ -13,8 +13,9 @@
 (*   rw, rh    size in cells                                               *)
 (*   kitty     the terminal identifies as kitty                            *)
 (*   tbg       terminal background <<r,g,b>>, <<>> = unknown               *)
-(*   thr       <<num, den>>: transparency enabled with alpha threshold     *)
-(*             num/den;  <<>>: every pixel is opaque (alpha disabled, no    *)
+(*   thr       the alpha threshold as the decimal digits after the point   *)
+(*             of its repr (0.25 -> <<2, 5>>, 0.0 -> <<0>>): transparency   *)
+(*             enabled;  <<>>: every pixel is opaque (alpha disabled, no    *)
 (*             alpha channel, or composited over a background colour)      *)
 (*   uniform   the source is uniformly coloured                            *)
 (*   exp       rows of cells <<ur,ug,ub,ua, lr,lg,lb,la>>: RGB a pixel      *)
@@ -25,12 +26,19 @@
 (*             (rendering must not reconfigure the caller's image)          *)
 (*   toks, gfx the lexed output                                            *)
 (*                                                                         *)
-(* Transparency classes of a pixel with alpha a under threshold t=num/den  *)
-(* (documented: "alpha ratio above which pixels are taken as opaque"):     *)
-(*   a/255 above t -> opaque, below -> transparent.  A pixel exactly at    *)
-(*   the threshold, or less than half an 8-bit level below it              *)
-(*   (0 <= 255*num - a*den <= den/2: the threshold quantised to the        *)
-(*   nearest 8-bit alpha level), is accepted either way.                   *)
+(* Transparency of a pixel with alpha a (0..255) under threshold t          *)
+(* (documented: "alpha ratio above which pixels are taken as opaque"):      *)
+(*   transparent iff a/255 < t, opaque iff a/255 > t, exactly a/255 = t is  *)
+(*   accepted either way (DESIGN C02).  Exact integer arithmetic: t is the  *)
+(*   decimal fraction 0.d1...dk of the threshold's repr; Level computes     *)
+(*   255 * t by long multiplication as integer part + fractional digits,    *)
+(*   so a < 255 t  <=>  a < int \/ (a = int /\ frac # 0).  No floats, no     *)
+(*   number above 255 * 9 + 254.                                            *)
+(* A transparent pixel drawn opaque is reported under a clause of its own   *)
+(* when it lies less than / exactly half an 8-bit level below the           *)
+(* threshold (the library quantises the threshold with round()), so that    *)
+(* this input class has a stable signature distinct from any other          *)
+(* misclassification.                                                      *)
 (***************************************************************************)
 EXTENDS BlockSem, Json, IOUtils
 
@@ -43,16 +51,41 @@ Tr == Traces[tid]
 Toks == Tr.toks
 N == Len(Toks)
 
+\* 255 * 0.d1...dk: [int |-> integer part, frac |-> fractional digits]
+RECURSIVE Mul255(_, _, _, _)
+Mul255(ds, i, carry, acc) ==
+  IF i = 0 THEN [int |-> carry, frac |-> acc]
+  ELSE LET v == ds[i] * 255 + carry IN Mul255(ds, i - 1, v \div 10, <<v % 10>> \o acc)
+
+Level(thr) == Mul255(thr, Len(thr), 0, <<>>)
+FracZero(f) == \A i \in DOMAIN f : f[i] = 0
+\* the fraction 0.f compared with 1/2: -1, 0, 1
+FracVsHalf(f) ==
+  IF f = <<>> \/ f[1] < 5 THEN -1
+  ELSE IF f[1] > 5 THEN 1
+  ELSE IF \A i \in DOMAIN f : i = 1 \/ f[i] = 0 THEN 0 ELSE 1
+
+\* [c |-> "opaque" | "transparent" | "either", m |-> how far below the threshold a transparent
+\*  pixel is: "under-half" / "half" an 8-bit level, else ""]
 Class(a, thr) ==
-  IF thr = <<>> THEN "opaque"
-  ELSE LET d == 255 * thr[1] - a * thr[2] IN      \* (t - a/255) * 255 * den
-       IF d < 0 THEN "opaque"
-       ELSE IF 2 * d <= thr[2] THEN "either"
-       ELSE "transparent"
+  IF thr = <<>> THEN [c |-> "opaque", m |-> ""]
+  ELSE LET L == Level(thr) IN
+       IF a > L.int THEN [c |-> "opaque", m |-> ""]                    \* a >= int + 1 > 255 t
+       ELSE IF a = L.int /\ FracZero(L.frac) THEN [c |-> "either", m |-> ""]   \* a = 255 t
+       ELSE IF a < L.int THEN [c |-> "transparent", m |-> ""]
+       ELSE [c |-> "transparent",                                       \* a = int < 255 t
+             m |-> CASE FracVsHalf(L.frac) = -1 -> "under-half"
+                     [] FracVsHalf(L.frac) = 0 -> "half"
+                     [] OTHER -> ""]
+
+RoundingClauses ==
+  {"threshold-rounded-down: pixel less than half an 8-bit level below the alpha threshold is drawn opaque",
+   "threshold-tie-rounded-down: pixel exactly half an 8-bit level below the alpha threshold is drawn opaque"}
 
 \* "ok" or the name of the clause a half-cell fails
 HalfClause(tr, cell, half, rgb, a) ==
-  LET cls == Class(a, tr.thr)
+  LET k == Class(a, tr.thr)
+      cls == k.c
       asOpaque == HalfShows(tr.kitty, tr.tbg, cell, half, rgb)
       asTransp == HalfShows(tr.kitty, tr.tbg, cell, half, DefaultColor)
       shown == HalfColour(cell, half)
@@ -60,6 +93,10 @@ HalfClause(tr, cell, half, rgb, a) ==
   IF cell.g \notin BlockGlyphs THEN "glyph: cell holds something else than space / half block"
   ELSE IF (cls = "opaque" /\ asOpaque) \/ (cls = "transparent" /\ asTransp)
           \/ (cls = "either" /\ (asOpaque \/ asTransp)) THEN "ok"
+  ELSE IF cls = "transparent" /\ asOpaque /\ k.m = "under-half"
+    THEN "threshold-rounded-down: pixel less than half an 8-bit level below the alpha threshold is drawn opaque"
+  ELSE IF cls = "transparent" /\ asOpaque /\ k.m = "half"
+    THEN "threshold-tie-rounded-down: pixel exactly half an 8-bit level below the alpha threshold is drawn opaque"
   ELSE IF cls = "transparent"
     THEN "transparent-not-default: pixel below the alpha threshold does not show the terminal's own background"
   ELSE IF cls = "either"
@@ -76,8 +113,10 @@ CellClause(tr, S, i, j) ==
   LET cell == CellAt(S, i, j)
       e == tr.exp[i + 1][j + 1]
       cu == HalfClause(tr, cell, "u", <<e[1], e[2], e[3]>>, e[4])
-  IN IF cu # "ok" THEN [v |-> cu, half |-> "upper"]
-     ELSE [v |-> HalfClause(tr, cell, "l", <<e[5], e[6], e[7]>>, e[8]), half |-> "lower"]
+      cl == HalfClause(tr, cell, "l", <<e[5], e[6], e[7]>>, e[8])
+  IN IF cu # "ok" /\ (cu \notin RoundingClauses \/ cl = "ok" \/ cl \in RoundingClauses)
+       THEN [v |-> cu, half |-> "upper"]
+       ELSE [v |-> cl, half |-> "lower"]
 
 Positions(tr) == {<<i, j>> : i \in 0..(tr.rh - 1), j \in 0..(tr.rw - 1)}
 Before(p, q) == p[1] < q[1] \/ (p[1] = q[1] /\ p[2] < q[2])
@@ -95,7 +134,9 @@ EndClause(tr, S) ==
   ELSE
     LET bad == {p \in Positions(tr) : CellClause(tr, S, p[1], p[2]).v # "ok"} IN
     IF bad # {}
-      THEN LET p == CHOOSE x \in bad : \A y \in bad : x = y \/ Before(x, y)
+      THEN LET severe == {p \in bad : CellClause(tr, S, p[1], p[2]).v \notin RoundingClauses}
+               pool == IF severe # {} THEN severe ELSE bad     \* rounding clauses are reported last
+               p == CHOOSE x \in pool : \A y \in pool : x = y \/ Before(x, y)
                c == CellClause(tr, S, p[1], p[2])
            IN [v |-> c.v, row |-> p[1], col |-> p[2], half |-> c.half]
     ELSE IF tr.uniform /\ ~Uniform(tr, S)
